@@ -10,6 +10,7 @@ import (
 	"errors"
 	"fmt"
 	"math/rand"
+	"os"
 	"runtime"
 	"sort"
 	"strings"
@@ -330,6 +331,9 @@ func (s *Sim) YieldTag(ctx context.Context, point, tag string) {
 }
 
 func (s *Sim) park(id, point, tag string) {
+	if point == "read" {
+		s.stat("yield_after_autocommit_read")
+	}
 	ch := make(chan struct{})
 	key := id + "|" + role() + "@" + point
 	if tag != "" {
@@ -348,6 +352,9 @@ func (s *Sim) park(id, point, tag string) {
 		}
 	}
 	s.parked[key] = ch
+	if schedLog {
+		s.Log = append(s.Log, "    park "+key)
+	}
 	s.mu.Unlock()
 	<-ch
 }
@@ -404,8 +411,13 @@ func (s *Sim) ParkedKeys() []string {
 		keys = append(keys, k)
 	}
 	sort.Strings(keys)
+	if schedLog {
+		s.Log = append(s.Log, fmt.Sprintf("  keys %v", keys))
+	}
 	return keys
 }
+
+var schedLog = os.Getenv("VERIF_SCHEDLOG") != ""
 
 // Resume releases the parked goroutine with the given key and settles.
 func (s *Sim) Resume(key string) {
